@@ -49,7 +49,7 @@ def menu(tn, T, v, lab):
     ]
     if tn in ('PCBO', 'PCSO'):
         m.append(('add_constraint_lt', lambda M: M.add_constraint_lt_zero({(a,): 1, (b,): 1, (c,): 1, (): -3})))
-        m.append(('add_constraint_ne', lambda M: M.add_constraint_ne_zero({(a,): 1, (b,): -1, (c,): 2})))
+        m.append(('add_constraint_ne', lambda M: M.add_constraint_ne_zero({(a,): 1, (b,): -1})))
     return m
 
 
